@@ -419,7 +419,7 @@ def run_real(F, t, script, fault, max_visits=24):
     STATE_NFIELDS[0] = len(sf)
     state = mk_state(Sym("reg:0"))
     inl = lambda k: (k.startswith("mahf::components::control_flow::") or k.startswith("<mahf::components::control_flow::") or k.startswith("mahf::configuration::")
-                     or k.startswith("mahf::state::State::") or k.startswith("<mahf::state::State") or k.startswith("mahf::state::registry::entry::Entry::") or k.startswith("<mahf::state::registry::entry::Entry") or k.startswith("<mahf::state::common::Iterations as ") or k.startswith("mahf::state::require::") or k.startswith("<mahf::state::require::"))
+                     or k.startswith("mahf::state::State::") or k.startswith("<mahf::state::State") or k.startswith("mahf::state::registry::entry::Entry::") or k.startswith("<mahf::state::registry::entry::Entry") or k.startswith("<mahf::state::common::Iterations as core::default::Default>") or k.startswith("mahf::state::require::") or k.startswith("<mahf::state::require::"))
     it = install(Interp(fn.body, chain(mk_oracle(script, fault), coll_oracle, std_oracle), [cfg, Sym("problem"), Ref(HOME - 1, [], frame="root")], facts=F, inline=inl, max_visits=max_visits, max_paths=40, max_depth=40))
     it.dispatch = True
     env = {HOME - 1: state}
